@@ -14,50 +14,9 @@
    theorems with the explicit [clash_free] hypothesis. *)
 From Coq Require Import List ZArith NArith String Bool Lia.
 From SCC Require Import Base.Sexp Lang.CoreSyn Sem.AxSem Sem.CoreSem Proof.FocusKont Proof.FocusSim Proof.FocusRun.
+From SCC Require Import Model.FocusGuard.
 Import ListNotations.
 Open Scope list_scope.
-
-Section Guard.
-Variable cod : cty -> bool.
-Variables bn kr : bool.
-
-Definition arg_ok_prd (t : cterm) : bool :=
-  match t with CMu _ _ _ ty => if cod ty then bn else kr | _ => true end.
-Definition arg_ok_cns (t : cterm) : bool :=
-  match t with CMu _ _ _ ty => if cod ty then bn else true | _ => true end.
-Definition cut_ok (cd : bool) (p : cterm) : bool :=
-  match p with CMu _ _ _ _ => if cd then bn else true | _ => true end.
-
-Fixpoint sg_term (t : cterm) : bool :=
-  match t with
-  | CXVar _ _ _ => true
-  | CLit _ => true
-  | COp a _ b => sg_term a && arg_ok_prd a && (sg_term b && arg_ok_prd b)
-  | CMu _ _ s _ => sg_stmt s
-  | CXtor _ _ args _ => forallb sg_arg args
-  | CXCase _ cls _ => forallb sg_clause cls
-  end
-with sg_arg (a : carg) : bool :=
-  match a with
-  | CProducer p => sg_term p && arg_ok_prd p
-  | CConsumer k => sg_term k && arg_ok_cns k
-  end
-with sg_clause (cl : cclause) : bool :=
-  match cl with CClause _ _ _ b => sg_stmt b end
-with sg_stmt (s : cstmt) : bool :=
-  match s with
-  | CCut p ty k => sg_term p && sg_term k && cut_ok (cod ty) p
-  | CIfC _ a b t e =>
-      sg_term a && arg_ok_prd a && match b with Some b' => sg_term b' && arg_ok_prd b' | None => true end
-      && sg_stmt t && sg_stmt e
-  | CPrint _ a n => sg_term a && arg_ok_prd a && sg_stmt n
-  | CCall _ args _ => forallb sg_arg args
-  | CExit a _ => sg_term a && arg_ok_prd a
-  end.
-End Guard.
-
-Definition sg_prog (bn kr : bool) (p : cprog) : bool :=
-  forallb (fun d => sg_stmt (is_codata p) bn kr (cdbody d)) (cpdefs p).
 
 Section Inv.
 Variable ps : cprog.
